@@ -20,6 +20,7 @@ def dispatch (j : Json) : R Json := do
   | ["C06", o] => C06.handle o j
   | ["C02", o] => C02.handle o j
   | ["C01", o] => C01.handle o j
+  | ["C11", o] => C01.handle o j
   | ["C04", o] => C04.handle o j
   | ["C08", o] => C08.handle o j
   | ["C10", o] => C10.handle o j
